@@ -8,6 +8,7 @@ paid for by a map operation and every branch slot by an allocation (`…LoopC_si
 -/
 import GrcovModel.Jacoco.Cost
 import GrcovModel.Lemmas.TextCostBase
+import GrcovModel.Lemmas.Jacoco
 import Mathlib.Tactic.Ring
 import Mathlib.Tactic.Linarith
 import Mathlib.Data.List.Nodup
@@ -95,28 +96,13 @@ theorem parseCapC_fst (cap : Nat) (evs : List XmlEvent) (fuel : Nat) :
 
 theorem getAttrCost_le (key : Name) (a : List Attr) :
     (getAttrCost key a).reads = 0 ∧ (getAttrCost key a).attrs ≤ a.length ∧
-    (getAttrCost key a).mapOps = 0 ∧ (getAttrCost key a).alloc = 0 := by
-  induction a with
-  | nil => simp [getAttrCost]
-  | cons kv rest ih =>
-    obtain ⟨k, v⟩ := kv
-    simp only [getAttrCost]
-    split
-    · simp
-    · simp only [Cost.add, List.length_cons]; omega
+    (getAttrCost key a).mapOps = 0 ∧ (getAttrCost key a).alloc = 0 :=
+  ⟨rfl, getAttrWork_le key a, rfl, rfl⟩
 
 theorem lineAttrsCost_le (a : List Attr) :
     (lineAttrsCost a).reads = 0 ∧ (lineAttrsCost a).attrs ≤ a.length ∧
-    (lineAttrsCost a).mapOps = 0 ∧ (lineAttrsCost a).alloc = 0 := by
-  induction a with
-  | nil => simp [lineAttrsCost]
-  | cons kv rest ih =>
-    obtain ⟨k, v⟩ := kv
-    simp only [lineAttrsCost]
-    repeat' split
-    all_goals first
-      | (simp; done)
-      | (simp only [Cost.add, List.length_cons]; omega)
+    (lineAttrsCost a).mapOps = 0 ∧ (lineAttrsCost a).alloc = 0 :=
+  ⟨rfl, lineAttrsWork_le a, rfl, rfl⟩
 
 /-! ### a budget for a loop: what it may spend on the events it consumes -/
 
@@ -233,7 +219,7 @@ theorem sourcefileLoopC_bound (cap fuel : Nat) (evs : List XmlEvent) (acc : SrcA
         · next hn =>
           have ha := lineAttrsCost_le a
           rw [withCost_withCost]
-          cases hl : lineAttrs [] a {} with
+          cases hl : lineAttrs a {} with
           | error k =>
             refine boundB_event ?_ (boundB_fail _ _ (by intro x h; cases h))
             simp only [Cost.le, Cost.add, tick, evMax, evAttrs]; omega
@@ -427,44 +413,50 @@ theorem packageLoopC_bound (cap : Nat) (pk : Name) (fuel : Nat) (evs : List XmlE
             simp only
             rw [withCost_withCost]
             have hm := classLoopC_bound (afterLast cSlash fq) fuel r []
-            (
-                cases hmo : (classLoopC (afterLast cSlash fq) fuel r []).1 with
-                | ok xr =>
-                  obtain ⟨x1, r'⟩ := xr
-                  simp only [withCost_withCost]
-                  have hk := ih r' (addClass m (sourceFileOf a (beforeFirst cDollar (afterLast cSlash fq))) x1)
-                  unfold BoundB at hm hk ⊢
-                  rw [hmo] at hm
-                  simp only [withCost_fst, withCost_snd] at *
-                  cases hk1 : (packageLoopC cap pk fuel r' (addClass m (sourceFileOf a (beforeFirst cDollar (afterLast cSlash fq))) x1)).1 with
-                  | ok y =>
-                    rw [hk1] at hk
-                    simp only [Cost.le, Cost.add, tick, evMax, evAttrs, sumMax_cons] at *; omega
+            cases hsf : sourceFileOf a (beforeFirst cDollar (afterLast cSlash fq)) with
+            | error k =>
+              refine boundB_event ?_ (boundB_fail _ _ (by intro x h; cases h))
+              simp only [Cost.le, Cost.add, tick, evMax, evAttrs]; omega
+            | ok file =>
+              simp only
+              (
+                  cases hmo : (classLoopC (afterLast cSlash fq) fuel r []).1 with
+                  | ok xr =>
+                    obtain ⟨x1, r'⟩ := xr
+                    simp only [withCost_withCost]
+                    have hk := ih r' (addClass m file x1)
+                    unfold BoundB at hm hk ⊢
+                    rw [hmo] at hm
+                    simp only [withCost_fst, withCost_snd] at *
+                    cases hk1 : (packageLoopC cap pk fuel r' (addClass m file x1)).1 with
+                    | ok y =>
+                      rw [hk1] at hk
+                      simp only [Cost.le, Cost.add, tick, evMax, evAttrs, sumMax_cons] at *; omega
+                    | err k =>
+                      rw [hk1] at hk
+                      simp only [Cost.le, Cost.add, tick, evMax, evAttrs, sumMax_cons] at *; omega
+                    | alloc =>
+                      rw [hk1] at hk
+                      simp only [Cost.le, Cost.add, tick, evMax, evAttrs, sumMax_cons] at *; omega
+                    | diverge =>
+                      rw [hk1] at hk
+                      simp only [Cost.le, Cost.add, tick, evMax, evAttrs, sumMax_cons] at *; omega
                   | err k =>
-                    rw [hk1] at hk
-                    simp only [Cost.le, Cost.add, tick, evMax, evAttrs, sumMax_cons] at *; omega
+                    unfold BoundB at hm ⊢
+                    rw [hmo] at hm
+                    simp only [withCost_fst, withCost_snd, Cost.le, Cost.add, tick, evMax, evAttrs, sumMax_cons] at *
+                    omega
                   | alloc =>
-                    rw [hk1] at hk
-                    simp only [Cost.le, Cost.add, tick, evMax, evAttrs, sumMax_cons] at *; omega
+                    unfold BoundB at hm ⊢
+                    rw [hmo] at hm
+                    simp only [withCost_fst, withCost_snd, Cost.le, Cost.add, tick, evMax, evAttrs, sumMax_cons] at *
+                    omega
                   | diverge =>
-                    rw [hk1] at hk
-                    simp only [Cost.le, Cost.add, tick, evMax, evAttrs, sumMax_cons] at *; omega
-                | err k =>
-                  unfold BoundB at hm ⊢
-                  rw [hmo] at hm
-                  simp only [withCost_fst, withCost_snd, Cost.le, Cost.add, tick, evMax, evAttrs, sumMax_cons] at *
-                  omega
-                | alloc =>
-                  unfold BoundB at hm ⊢
-                  rw [hmo] at hm
-                  simp only [withCost_fst, withCost_snd, Cost.le, Cost.add, tick, evMax, evAttrs, sumMax_cons] at *
-                  omega
-                | diverge =>
-                  unfold BoundB at hm ⊢
-                  rw [hmo] at hm
-                  simp only [withCost_fst, withCost_snd, Cost.le, Cost.add, tick, evMax, evAttrs, sumMax_cons] at *
-                  omega
-            )
+                    unfold BoundB at hm ⊢
+                    rw [hmo] at hm
+                    simp only [withCost_fst, withCost_snd, Cost.le, Cost.add, tick, evMax, evAttrs, sumMax_cons] at *
+                    omega
+              )
         · split
           · next hn =>
             have h1 := getAttrCost_le sName a
@@ -631,7 +623,7 @@ theorem sourcefileLoopC_size (cap fuel : Nat) (evs : List XmlEvent) (acc acc' : 
         simp only at h ⊢
         by_cases hn : localName n = sLine
         · simp only [hn, if_true, withCost_fst] at h ⊢
-          cases hl : lineAttrs [] a {} with
+          cases hl : lineAttrs a {} with
           | error k => simp [hl] at h
           | ok la =>
             simp only [hl] at h ⊢
@@ -841,17 +833,21 @@ theorem packageLoopC_size (cap : Nat) (pk : Name) (fuel : Nat) (evs : List XmlEv
           | error k => simp [hl] at h
           | ok fq =>
             simp only [hl, withCost_fst] at h ⊢
-            cases hm : (classLoopC (afterLast cSlash fq) fuel r []).1 with
-            | ok xr =>
-              obtain ⟨fns, r1⟩ := xr
-              simp only [hm, withCost_fst] at h ⊢
-              have h1 := ih r1 _ h
-              have h2 := addClass_size m (sourceFileOf a (beforeFirst cDollar (afterLast cSlash fq))) fns
-              have h3 := classLoopC_size _ fuel r [] fns r1 hm
-              simp only [withCost_snd, Cost.add, tick, List.length_nil] at *; omega
-            | err k => simp [hm] at h
-            | alloc => simp [hm] at h
-            | diverge => simp [hm] at h
+            cases hsf : sourceFileOf a (beforeFirst cDollar (afterLast cSlash fq)) with
+            | error k => simp [hsf] at h
+            | ok file =>
+              simp only [hsf, withCost_fst] at h ⊢
+              cases hm : (classLoopC (afterLast cSlash fq) fuel r []).1 with
+              | ok xr =>
+                obtain ⟨fns, r1⟩ := xr
+                simp only [hm, withCost_fst] at h ⊢
+                have h1 := ih r1 _ h
+                have h2 := addClass_size m file fns
+                have h3 := classLoopC_size _ fuel r [] fns r1 hm
+                simp only [withCost_snd, Cost.add, tick, List.length_nil] at *; omega
+              | err k => simp [hm] at h
+              | alloc => simp [hm] at h
+              | diverge => simp [hm] at h
         · simp only [hn, if_false] at h ⊢
           by_cases hn2 : localName n = sSourcefile
           · simp only [hn2, if_true, withCost_fst] at h ⊢
@@ -1043,7 +1039,7 @@ theorem expand_sizes (evs : List XmlEvent) :
 /-! ### the closed family of the allocation finding -/
 
 theorem lineAttrs_oneLine (d : Name) (cb : Nat) (h : parseUnsigned U64MAX d = some cb) :
-    lineAttrs [] [(sNr, [49]), (sCi, [48]), (sMb, [48]), (sCb, d)] {}
+    lineAttrs [(sNr, [49]), (sCi, [48]), (sMb, [48]), (sCb, d)] {}
       = .ok ⟨some 0, some cb, some 0, some 1⟩ := by
   have h1 : parseUnsigned U32MAX [49] = some 1 := by decide
   have h0 : parseUnsigned U64MAX [48] = some 0 := by decide
